@@ -2333,6 +2333,11 @@ pub(crate) mod verif_origin {
         pub edges_after_clear: usize,
         pub extra_after_clear: Option<bool>,
         pub kind_ok_after_clear: bool,
+        /// `Debug` rendering of the whole extra data (every field populated when built
+        /// `with_extra`) after construction, after late attachment and after `clear_edges`
+        pub extra_debug_after_build: Option<String>,
+        pub extra_debug_after_insert: Option<String>,
+        pub extra_debug_after_clear: Option<String>,
     }
 
     fn decode(origin: &OriginAndExtra, untracked: bool) -> (bool, bool, Vec<EdgeSpec>, Vec<EdgeSpec>) {
@@ -2356,6 +2361,17 @@ pub(crate) mod verif_origin {
         let extra = if with_extra {
             let mut inner = QueryRevisionsExtraInner::empty();
             inner.cycle_converged = true;
+            // populate every field so that losing any of them is observable
+            // SAFETY: small constant indices
+            let some_id = unsafe { Id::from_index(42) }.with_generation(3);
+            inner.tracked_struct_ids.push((
+                crate::tracked_struct::Identity::verif_new(7, 0xABCD_EF01, 2),
+                some_id,
+            ));
+            inner.cycle_heads = CycleHeads::initial(
+                DatabaseKeyIndex::new(IngredientIndex::new(5), some_id),
+                IterationStamp::default(),
+            );
             QueryRevisionsExtra(Some(inner))
         } else {
             Default::default()
@@ -2374,14 +2390,17 @@ pub(crate) mod verif_origin {
         report.inputs = origin.origin().inputs().map(|k| from_key(false, k)).collect();
         report.outputs = origin.origin().outputs().map(|k| from_key(true, k)).collect();
         report.extra_after_build = origin.extra().map(|e| e.cycle_converged);
+        report.extra_debug_after_build = origin.extra().map(|e| format!("{e:?}"));
         origin.get_or_insert_extra().cycle_converged = true;
         report.extra_after_insert = origin.extra().map(|e| e.cycle_converged);
+        report.extra_debug_after_insert = origin.extra().map(|e| format!("{e:?}"));
         report.edges_after_extra = decode(&origin, untracked).2;
         origin.clear_edges();
         let (kind_ok, _, fwd, _) = decode(&origin, untracked);
         report.kind_ok_after_clear = kind_ok;
         report.edges_after_clear = fwd.len();
         report.extra_after_clear = origin.extra().map(|e| e.cycle_converged);
+        report.extra_debug_after_clear = origin.extra().map(|e| format!("{e:?}"));
         report
     }
 
